@@ -3,8 +3,10 @@ in-process dict, sys.modules and the on-disk .so keyed by _inline_key).
 
 A run is a history of cython.inline calls issued by a sequence of simulated
 processes (real forks, one after the other) that share one lib_dir.  Between
-calls exactly one input changes (code, argument types, language level, compiler
-directives, contents of a cimported .pxd); processes restart (the in-process
+calls the inputs change (code, argument types, language level, compiler
+directives; cimports inside inline snippets are not supported by this Cython
+version, so "dependency contents" cannot be varied - an unrelated file in the
+include directory is edited instead and must not matter); processes restart (the in-process
 caches are lost, the lib_dir survives) and may be killed at a seam point inside
 the build (before cythonize, after the C file exists, after the .so exists but
 before it is loaded, or with the .so torn to a prefix).  Oracle: every call that
@@ -30,8 +32,6 @@ SNIPPETS = [
     ("return a ** b", {"int": {"a": 2, "b": -1}, "float": {"a": 2.0, "b": -1.0}}),
     ("return type('x').__name__, type(b'x').__name__", {"none": {}}),
     ("x = a * a\nreturn x", {"int": {"a": 1 << 40}, "float": {"a": 2.0 ** 40}}),
-    ("cimport dep\nreturn dep.K + a", {"int": {"a": 1}, "float": {"a": 1.5}}),
-    ("from dep cimport K\nreturn K * a", {"int": {"a": 3}}),
     ("return a", {"int": {"a": 3}, "float": {"a": 3.0}, "str": {"a": "s"}, "list": {"a": [1]}}),
 ]
 DIRECTIVES = [None, {"cdivision": True}, {"cpow": True}, {"cdivision": True, "cpow": True}, {"overflowcheck": True},
@@ -40,7 +40,43 @@ LEVELS = [None, 2, 3, "3str"]
 KILL_POINTS = ["before_cythonize", "after_cythonize", "after_build", "torn_so"]
 
 
+# per snippet: (directives, level, variant) settings whose fresh results differ from one another (the dimension a stale
+# entry would be visible in); the focused generator alternates between two of them for one snippet
+SENSITIVE = {
+    0: [(None, None, "int"), ({"cdivision": True}, None, "int"), (None, None, "float"), ({"cdivision": False}, None, "mixed")],
+    1: [(None, None, "int"), ({"cdivision": True}, None, "int"), (None, None, "float")],
+    2: [(None, 2, "none"), (None, 3, "none"), ({"language_level": 2}, None, "none"), ({"language_level": 3}, None, "none"), (None, None, "none")],
+    3: [(None, None, "int"), ({"cpow": True}, None, "int"), (None, None, "float")],
+    4: [(None, 2, "none"), (None, 3, "none"), (None, "3str", "none"), ({"language_level": 2}, None, "none")],
+    5: [(None, None, "int"), ({"overflowcheck": True}, None, "int"), (None, None, "float")],
+    6: [(None, None, "int"), (None, None, "float"), (None, None, "str"), (None, None, "list")],
+}
+
+
+def gen_focused(rng, cfg):
+    """One snippet, two settings that matter for it, alternated across calls, processes and kills."""
+    si = rng.choice(sorted(SENSITIVE))
+    s1, s2 = rng.sample(SENSITIVE[si], 2)
+    for _ in range(3):      # prefer pairs that differ in directives/level only (same argument types => same module signature)
+        if s1[2] == s2[2]:
+            break
+        s1, s2 = rng.sample(SENSITIVE[si], 2)
+    faults = rng.random() < cfg.get("fault_rate", 0.4)
+    ops = []
+    seq = [s1, s2] + [rng.choice([s1, s2]) for _ in range(rng.randint(0, 3))]
+    for k, (d, lvl, var) in enumerate(seq):
+        if k and rng.random() < 0.45:
+            ops.append(["restart"])
+        if faults and rng.random() < 0.3:
+            ops.append(["kill", rng.choice(KILL_POINTS)])
+            ops.append(["call", si, d, lvl, var])
+        ops.append(["call", si, d, lvl, var])
+    return ops
+
+
 def gen_history(rng, cfg):
+    if rng.random() < cfg.get("focused_rate", 0.6):
+        return gen_focused(rng, cfg)
     ops = []
     n = rng.randint(2, cfg["maxlen"])
     k = 0
@@ -262,9 +298,13 @@ def simulate(ops, rundir):
         for j, rec in enumerate(payload):
             if j < len(res):
                 rec["got"] = res[j]
-            elif rec["kill"] and j == len(res):
+            elif rec["kill"] and j == len(res) and code == 137:
                 rec["got"] = ["killed", rec["kill"]]
                 stats["kills_fired"][rec["kill"]] = stats["kills_fired"].get(rec["kill"], 0) + 1
+            elif j == len(res) and code < 0:
+                rec["got"] = ["died", "signal %d" % -code]      # the simulated process crashed inside this call
+            elif j > len(res) and code < 0:
+                rec["got"] = ["lost"]                           # never ran: its process had crashed in an earlier call
             else:
                 raise core.HarnessError("inline process lost a call without a scheduled kill: exit %s, %d of %d results" % (code, len(res), len(payload)))
             stats["log"].append(["call", rec["call"], rec["got"]])
@@ -297,13 +337,13 @@ def one_run(check, seed, i, cfg, ops=None):
     P = res["probes"]
     P["inline_calls"] = stats["calls"]
     P["inline_processes"] = stats["processes"]
-    res["faults"]["inline_dependency_edit"] = stats["dep_edits"]
+    res["faults"]["inline_unrelated_file_edit_in_include_dir"] = stats["dep_edits"]
     res["faults"]["inline_process_restart"] = sum(1 for o in ops if o[0] == "restart")
     for k, v in stats["kills_fired"].items():
         res["faults"]["inline_kill_" + k] = v
     res["digest"] = core.digest(stats["log"])
     distinct_keys = {key_of(r["call"]) for r in records}
-    res["nontrivial"] = len(distinct_keys) >= 2 or stats["dep_edits"] > 0 or bool(stats["kills_fired"])
+    res["nontrivial"] = len(distinct_keys) >= 2 or bool(stats["kills_fired"])
     torn_keys = set()
     seen_key_dep = {}
     for rec in records:
@@ -313,21 +353,16 @@ def one_run(check, seed, i, cfg, ops=None):
             if got[1] == "torn_so":
                 torn_keys.add(k)
             continue
+        if got[0] == "lost":
+            continue
         code_k = json.dumps([call[0], call[3]])
         if code_k in seen_key_dep and seen_key_dep[code_k] != (call[1], call[2]):
             P["same_code_other_directives_or_level"] = P.get("same_code_other_directives_or_level", 0) + 1
         seen_key_dep.setdefault(code_k, (call[1], call[2]))
         if got == want:
             continue
-        uses = "dep" in SNIPPETS[call[0]][0]
-        if uses and stats["dep_edits"] and not cfg.get("raw") and got[0] == "value":
-            # known finding F3b: the key does not cover the contents of cimported files
-            P["known_F3b_dependency_content_not_in_inline_key"] = P.get("known_F3b_dependency_content_not_in_inline_key", 0) + 1
-            continue
-        if k in torn_keys and got == ["raise", "ImportError"] and not cfg.get("raw"):
-            # known finding F22: a .so torn by a crash during the link is trusted for ever
-            P["known_F22_torn_so_trusted"] = P.get("known_F22_torn_so_trusted", 0) + 1
-            continue
+        if k in torn_keys:
+            P["call_after_torn_so_of_same_key"] = P.get("call_after_torn_so_of_same_key", 0) + 1
         res["violation"] = {"klass": "inline-result-differs-from-fresh-build",
                             "detail": {"call_index": rec["idx"], "call": [SNIPPETS[call[0]][0]] + call[1:], "dep_version": rec["depv"], "got": got, "fresh": want},
                             "ops": ops, "engine_part": "inline"}
